@@ -29,23 +29,84 @@ _SWAP = {"Gt": "Lt", "GtE": "LtE"}
 _NEG = {"IsNot": "Is", "NotEq": "Eq", "NotIn": "In"}
 
 
+MAX_ALTS = 8
+MAX_COMBOS = 64
+
+
+def leaves(t, out=None):
+    """The variables a term is about: parameters, attribute chains on parameters, loop phis, fresh objects."""
+    out = out if out is not None else set()
+    if not isinstance(t, tuple) or not t:
+        return out
+    tag = t[0]
+    if tag in ("param", "phi", "new", "elem", "exc", "unknown"):
+        out.add(t)
+    elif tag == "attr" and t[1][0] in ("param", "new"):
+        out.add(t)
+    elif tag in ("const", "builtin", "global", "ext"):
+        pass
+    else:
+        for x in t[1:]:
+            if isinstance(x, tuple):
+                if x and isinstance(x[0], str):
+                    leaves(x, out)
+                else:
+                    for y in x:
+                        if isinstance(y, tuple):
+                            if y and isinstance(y[0], str):
+                                leaves(y, out)
+                            else:
+                                for z in y:
+                                    if isinstance(z, tuple):
+                                        leaves(z, out)
+    return out
+
+
+class Facts(dict):
+    """Guard facts of a state: a dict of must-facts common to every path merged into the state, plus `alts`:
+    per group of variables (the leaves a fact is about) a bounded disjunction of alternative extra fact sets, one per
+    merged path class. For every concrete path of the state and every group, one alternative of the group holds.
+    truth() consults the groups a condition is about: decided the same way in every alternative = decided.
+    Plain dict access sees only the common part (sound, less precise)."""
+    __slots__ = ("alts",)
+
+    def __init__(self, *a, **kw):
+        super().__init__(*a, **kw)
+        self.alts = {}      # frozenset(leaves) -> tuple of frozenset((fact key, value))
+
+    def copy(self):
+        f = Facts(self)
+        f.alts = dict(self.alts)
+        return f
+
+    def alts_key(self):
+        return frozenset(self.alts.items())
+
+
+def _group_of(k):
+    return frozenset(leaves(k))
+
+
 class State:
     __slots__ = ("env", "facts", "heap", "ctx", "trace", "_key")
 
     def __init__(self, env=None, facts=None, heap=None, ctx=(), trace=()):
         self.env = env if env is not None else {}
-        self.facts = facts if facts is not None else {}
+        if isinstance(facts, Facts):
+            self.facts = facts
+        else:
+            self.facts = Facts(facts or {})
         self.heap = heap if heap is not None else {}
         self.ctx = ctx
         self.trace = trace      # opt-in: the traced calls / stores executed so far on this path
         self._key = None
 
     def copy(self):
-        return State(dict(self.env), dict(self.facts), dict(self.heap), self.ctx, self.trace)
+        return State(dict(self.env), self.facts.copy(), dict(self.heap), self.ctx, self.trace)
 
     def key(self):
         if self._key is None:
-            self._key = (frozenset(self.env.items()), frozenset(self.facts.items()),
+            self._key = (frozenset(self.env.items()), frozenset(self.facts.items()), self.facts.alts_key(),
                          frozenset(self.heap.items()), self.ctx)
         return self._key
 
@@ -190,10 +251,54 @@ def _struct_truth(t, facts):
 def truth(t, facts):
     """Truth value of term t under the facts: True / False / None (unknown)."""
     k, pol = norm_atom(t)
-    v = _truth_key(k, facts)
+    v = _truth_alts(k, facts)
     if v is None:
         return None
     return v if pol else not v
+
+
+def alternatives(facts, about=None):
+    """The fact sets a (possibly merged) state stands for, restricted to the variable groups `about` mentions:
+    one plain dict per combination of alternatives (bounded)."""
+    alts = getattr(facts, "alts", None)
+    if not alts:
+        return [facts]
+    if about is not None:
+        lv = set()
+        for t in (about if isinstance(about, (list, set)) else [about]):
+            leaves(t, lv)
+        groups = [g for g in alts if g & lv]
+    else:
+        groups = list(alts)
+    if not groups:
+        return [facts]
+    combos = [dict(facts)]
+    for g in groups:
+        nxt = []
+        for c in combos:
+            for alt in alts[g]:
+                d = dict(c)
+                d.update(alt)
+                nxt.append(d)
+        combos = nxt
+        if len(combos) > MAX_COMBOS:
+            return [facts]
+    return combos
+
+
+def _truth_alts(k, facts):
+    v = _truth_key(k, facts)
+    if v is None and getattr(facts, "alts", None):
+        vals = set()
+        for d in alternatives(facts, k):
+            if d is facts:
+                return None
+            vals.add(_truth_key(k, d))
+            if len(vals) > 1:
+                return None
+        if len(vals) == 1:
+            v = vals.pop()
+    return v
 
 
 def _truth_key(k, facts):
@@ -280,10 +385,26 @@ def assume(state: State, t, val: bool):
     """State refined with `t is val`, or None when that contradicts the facts (infeasible path)."""
     k, pol = norm_atom(t)
     v = (val == pol)
-    cur = _truth_key(k, state.facts)
+    cur = _truth_alts(k, state.facts)
     if cur is not None:
         return state if cur == v else None
     s = state.copy()
+    if s.facts.alts:
+        lv = leaves(k)
+        for g in [g for g in s.facts.alts if g & lv]:
+            keep = []
+            for alt in s.facts.alts[g]:
+                d = dict(s.facts)
+                d.update(alt)
+                if _truth_key(k, d) in (None, v):
+                    keep.append(alt)
+            if not keep:
+                return None
+            if len(keep) == 1:
+                s.facts.update(keep[0])
+                del s.facts.alts[g]
+            else:
+                s.facts.alts[g] = tuple(keep)
     s.facts[k] = v
     _derive(s.facts, k, v)
     return s
@@ -448,9 +569,28 @@ class Analyzer:
             g = groups.get(k)
             if g is None:
                 groups[k] = s
-            elif g.facts != s.facts:
+            elif g.facts != s.facts or g.facts.alts != s.facts.alts:
                 m = g.copy()
-                m.facts = {fk: fv for fk, fv in g.facts.items() if s.facts.get(fk, _MISSING) == fv}
+                common = Facts({fk: fv for fk, fv in g.facts.items() if s.facts.get(fk, _MISSING) == fv})
+                per_state = []
+                for st in (g, s):
+                    extra = {}
+                    for fk, fv in st.facts.items():
+                        if fk not in common:
+                            extra.setdefault(_group_of(fk), set()).add((fk, fv))
+                    per_state.append(extra)
+                for grp in set(per_state[0]) | set(per_state[1]) | set(g.facts.alts) | set(s.facts.alts):
+                    if not grp:
+                        continue
+                    alts = set()
+                    for st, extra in zip((g, s), per_state):
+                        own = frozenset(extra.get(grp, ()))
+                        for alt in (st.facts.alts.get(grp) or (frozenset(),)):
+                            alts.add(own | alt)
+                    if frozenset() in alts or len(alts) > MAX_ALTS:
+                        continue
+                    common.alts[grp] = tuple(sorted(alts, key=lambda a: sorted(map(repr, a))))
+                m.facts = common
                 groups[k] = m
         out = list(groups.values())
         if len(out) > self.res.max_live:
